@@ -31,6 +31,32 @@ CLAIMED = {
        "byte strings); debug-build overflow semantics (overflow-checks on). Known finding C04-fnda-before-fn.",
   technique="Lean 4 proof over a byte-level Mealy-machine model of parse_lcov + differential correspondence + spec oracle on the implementation",
   design="6.C04"),
+ "C02": dict(
+  text=("Proof: theorems about the Pipeline transition system (one producer, n consumers, main's join/stop-marker "
+        "sequence, FIFO queue of capacity 2n) for every n, item list, fault environment and schedule: conservation "
+        "(each item is in exactly one place in every reachable state: nothing dropped, nothing duplicated), the "
+        "stop-marker bookkeeping invariant, merged-at-most-once. Tie: the hooked grcov binary is run on generated "
+        "input sets with --threads 1..8, shuffled argument order and seeded perturbation; its per-thread event log "
+        "must be realisable by a run of the model (search over interleavings in the Lean driver) and the decoded lcov "
+        "report must equal the independent aggregate of what each input contains. Partial: the theorems cover every "
+        "interleaving of the model; that the OS only produces interleavings of these steps is the crossbeam/std contract."),
+  note=COMMON_NOTE + "Modelled, not verified: crossbeam bounded channel (FIFO, send blocks iff full and fails iff no "
+       "receiver is left, recv blocks iff empty), thread join, the result-map mutex. Real schedules are sampled, the "
+       "theorem carries the all-interleavings claim.",
+  technique="Lean 4 invariant proofs over a transition-system model + trace validation of the hooked binary against the model + end-to-end differential oracle",
+  design="6.C02"),
+ "C07": dict(
+  text=("Proof: for the repaired code (main drops its Receiver) no reachable non-terminal state of the Pipeline model "
+        "is stuck, for every n >= 1, item list, fault environment (rejects, worker deaths up to all workers) and "
+        "interleaving; every run has at most 3*items+6n+4 steps; and a closed witness that the original code deadlocks "
+        "(n=1, four items, the first kills the worker). Tie: fault injection through the cfg hook on the real binary "
+        "(rejects and panics at chosen inputs, all-workers-die scenarios with more queued items than slots): must "
+        "terminate within the limit, exit non-zero iff a worker died, otherwise report exactly the aggregate of the "
+        "non-rejected inputs, and the event log must be a run of the model with those faults."),
+  note=COMMON_NOTE + "Modelled, not verified: crossbeam channel disconnection semantics, panics unwinding a worker "
+       "thread drop its Receiver, process::exit. Parser non-termination is C14's subject, not modelled here.",
+  technique="Lean 4 progress + termination-measure proofs over the transition system, deadlock witness by decide, fault-injection trace validation",
+  design="6.C07"),
 }
 
 PENDING_REASON = "not claimed in this revision: model and check still being built (see DESIGN.md section 10)"
